@@ -1,12 +1,14 @@
 use crate::common::Ctx;
 use serde_json::Value;
 
+pub mod c01;
 pub mod c10;
 
 pub type RunFn = fn(&mut Ctx);
 
 pub fn find(id: &str) -> Option<(&'static str, RunFn)> {
     Some(match id {
+        "C01" => ("C01", |c| c01::run(c)),
         "C10" => ("C10", |c| c10::run(c)),
         _ => return None,
     })
@@ -14,6 +16,7 @@ pub fn find(id: &str) -> Option<(&'static str, RunFn)> {
 
 pub fn replay(id: &str, case: &Value) -> Result<(), String> {
     match id {
+        "C01" => c01::replay(case),
         "C10" => c10::replay(case),
         _ => Err(format!("no replay for {}", id)),
     }
